@@ -5,6 +5,8 @@ import json, os, shutil, sys, re, subprocess
 prop, k, newid, caught = sys.argv[1:5]
 needs = sys.argv[5] if len(sys.argv) > 5 else ""
 src = "/tmp/seedout/%s/%s" % (prop, k)
+if "_" in prop:
+    prop = prop.split("_", 1)[1]          # wave directories are named w4_C01 ...
 dst = "/verif/seeded/%s" % newid
 os.makedirs(dst, exist_ok=True)
 for fn in os.listdir(src):
